@@ -44,13 +44,15 @@ META = dict(
                'back exactly (_partial); the statement for all names is REFUTED: U+00E9 is sent as `\\xe9`, control characters as \\xNN and '
                'astral characters as \\UXXXXXXXX, escapes IRLexer.quotedLiteral rejects, and (given two table facts confirmed on a real re and '
                'JVM) the bare name a² is not a Java identifier. Identifiers printed into IR text through hail.utils.misc.escape_id (Ref, '
-               'GetField, field lists, bound names, keys, function names): the pattern of escape_id with its entry point, its back-tick '
-               'quoting and escape_str, REGENERATED from misc.py, are proved equal to the model (for every table of \\w above ASCII); on '
-               'the lexer model every back-ticked name of BMP code points (all control characters, line breaks, quotes, back-ticks, '
-               'backslashes, non-ASCII) and every bare name of Java identifier characters is read back as exactly that name, one token, '
-               'nothing left over (_partial); every BMP string literal printed by escape_str / parsable_strings is read back by the '
-               'string-literal lexer model; REFUTED for all names: U+1F600 is written \\u1F600 (five hex digits) which the engine ACCEPTS and '
-               'reads as U+1F60 "0", and the bare name a² is not a Java identifier.',
+               'GetField, field lists, bound names, keys, function names), for the code WITH fixes/C31-astral.diff and '
+               'fixes/C31-bare-ascii.diff: the pattern of escape_id with its entry point, its back-tick quoting and escape_str, REGENERATED '
+               'from misc.py, are proved equal to the model; on the lexer model EVERY name of Unicode scalar values (bare ASCII '
+               'identifiers; back-ticked: all control characters, line breaks, quotes, back-ticks, backslashes, non-ASCII, astral '
+               'characters as surrogate-pair escapes) is read back as exactly that name (its UTF-16 code units, utf16 proved injective '
+               'on scalar values), one token, nothing left over, whatever the Java identifier tables are above ASCII; every string '
+               'literal of scalar values printed by escape_str / parsable_strings is read back by the string-literal lexer model. '
+               'Lone surrogates in a Python str are outside the statements. What was wrong before the fixes is kept as a theorem '
+               'about hand definitions of the previous text (U+1F600 written \\u1F600 and read as U+1F60 "0"; a² sent bare).',
     level_note='PARTIAL: the engine side is a hand model of IRLexer.identifier/stringLiteral/unescapeString (Scala not executable here); only '
                'single identifier / string-literal tokens are lexed (followed by any non-identifier delimiter), not whole type or IR expressions, '
                'and the IR PARSER above the lexer (e.g. a field called None, keyword clashes) is out of scope; Character.isJavaIdentifier* are '
@@ -250,7 +252,7 @@ def _model_ids(ctx, cases, impl):
     exprs = []
     for c, r in zip(cases, impl):
         N = G.coq_name(c['id'])
-        exprs.append(f'(C31.GenId.escape_str true {N}, C31.GenId.escape_str false {N}, escape_id {_word_tab(r)} {N}, '
+        exprs.append(f'(C31.GenId.escape_str true {N}, C31.GenId.escape_str false {N}, escape_id {N}, '
                      f'C31.GenId.escape_id_quoted {N}, C31.GenId.parsable_strings [{N}; [120]; {N}])')
     return coq_eval(ctx, HEADER_ID, exprs, shard=80, timeout=300)
 
@@ -621,7 +623,7 @@ def _replay_id(ctx, case):
         generate(ctx)
         m = _model_ids(ctx, [case], [r])[0]
         N = G.coq_name(case['id'])
-        e = coq_eval(ctx, HEADER_ID, [f'lex_identifier (fun _ => false) (fun _ => false) (utf16 (escape_id {_word_tab(r)} {N}) ++ [32])',
+        e = coq_eval(ctx, HEADER_ID, [f'lex_identifier (fun _ => false) (fun _ => false) (utf16 (escape_id {N}) ++ [32])',
                                       f'lex_string (utf16 (str_literal {N}) ++ [32])'])
         out['model'] = {'GenId.escape_str true': G.uncps(m[0]), 'GenId.escape_str false': G.uncps(m[1]), 'escape_id': G.uncps(m[2]),
                         'engine_lexer_model(no non-ASCII identifier chars) on escape_id ++ " "': e[0],
